@@ -106,6 +106,7 @@ def native(fn, *a):  # type: ignore
             mon.set_events(tool, ev)
 
 
+@rt.natively
 def run_case(n: int, xs: list, bs: int, gp: int, ds: list, ex: int) -> bool:
     rt.begin()
     S = rt.SHARD
@@ -161,6 +162,7 @@ FLUSH_BASES = {
 }
 
 
+@rt.natively
 def flush_case(vs: list, bs: int, bk: int, bp: int, bq: int) -> bool:
     """10-11 operations on 6 qudits (SHARD['base']). Position i >= SHARD['first'] has a symbolic
     variant: 0 the base location, 1 the location shifted by one qudit (mod 6), 2 a gate one
